@@ -6,6 +6,7 @@ import (
 	"io"
 	"log"
 	"net/netip"
+	"sync/atomic"
 	"time"
 
 	"github.com/IrineSistiana/mosproxy/internal/dnsmsg"
@@ -16,7 +17,8 @@ import (
 	"github.com/valyala/fasthttp"
 )
 
-func (r *router) startFastHttpServer(cfg *ServerConfig) (*fasthttp.Server, error) {
+// The returned func stops the server and closes its listener.
+func (r *router) startFastHttpServer(cfg *ServerConfig) (func(), error) {
 	const defaultIdleTimeout = time.Second * 30
 	idleTimeout := time.Duration(cfg.IdleTimeout) * time.Second
 	if idleTimeout <= 0 {
@@ -50,14 +52,22 @@ func (r *router) startFastHttpServer(cfg *ServerConfig) (*fasthttp.Server, error
 		Logger:                       log.New(mlog.WriteToLogger(*h.logger, "redirected fasthttp log", "msg"), "", 0),
 	}
 
+	var closed atomic.Bool
 	go func() {
 		defer l.Close()
 		err := s.Serve(l)
-		if err != nil {
+		if err != nil && !closed.Load() {
 			r.fatal("fasthttp server exited", err)
 		}
 	}()
-	return s, nil
+	return func() {
+		closed.Store(true)
+		s.Shutdown()
+		// Shutdown() does nothing if Serve() has not picked up the listener
+		// yet (the router is closed right after it was started, e.g. because
+		// the next server failed to start). Serve() would then serve l forever.
+		l.Close()
+	}, nil
 }
 
 type fasthttpHandler struct {
